@@ -60,11 +60,12 @@ def _val(v):
     return v
 
 
-def canonical_dump(c=None) -> dict:
+def canonical_dump(c=None, timeout: float = 5.0, connect: bool = True) -> dict:
     """{lexicon spec or '*shared*': {table: sorted rows}} with foreign keys
     replaced by natural keys; 'dangling' lists references to missing rows."""
-    c = c or conn()
-    raw = sqlite3.connect(str(wn.config.database_path))
+    if connect:
+        c = c or conn()
+    raw = sqlite3.connect(str(wn.config.database_path), timeout=timeout)
     try:
         nat = {t: dict(raw.execute(q).fetchall()) for t, q in NAT.items()}
         owner_of = {}   # (table, rowid) -> lexicon spec, for parents
@@ -221,6 +222,86 @@ def observe(own_extras: dict | None = None) -> dict:
             'audit': {'fk': fk, 'integrity': integ, 'dangling': cd['dangling'],
                       'badlinks': badlinks, 'orphans': orphans},
             'rawsha': raw_sha()}
+
+
+def view() -> dict:
+    """What ANOTHER connection sees right now (used from inside a progress callback
+    while wn's own connection has its transaction open): the committed state, or
+    'busy' when SQLite does not let a reader in at this moment."""
+    try:
+        raw = sqlite3.connect(str(wn.config.database_path), timeout=0)
+        try:
+            inst = [r[0] for r in raw.execute(
+                "SELECT id || ':' || version FROM lexicons ORDER BY rowid")]
+            ilis = sorted([i, s if s is not None else '?', d if d is not None else '~']
+                          for i, s, d in raw.execute(
+                              'SELECT i.id, s.status, i.definition FROM ilis i '
+                              'LEFT JOIN ili_statuses s ON s.rowid = i.status_rowid'))
+            look = {'rel': sorted(r[0] for r in raw.execute('SELECT type FROM relation_types')),
+                    'lexfile': sorted(r[0] for r in raw.execute('SELECT name FROM lexfiles')),
+                    'status': sorted(r[0] for r in raw.execute('SELECT status FROM ili_statuses'))}
+        finally:
+            raw.close()
+        cd = canonical_dump(timeout=0, connect=False)
+    except sqlite3.OperationalError as e:
+        return {'busy': str(e)[:40]}
+    digests = sorted([spec, sha({t: rows for t, rows in tabs.items()
+                                 if t not in ('tags', 'pronunciations')})]
+                     for spec, tabs in cd['dump'].items() if spec != '*shared*')
+    return {'inst': inst, 'ilis': ilis, 'look': look, 'digests': digests,
+            'dangling': cd['dangling']}
+
+
+def watching_handler(views: list, counter: list):
+    """A ProgressHandler subclass that looks at the database through a second
+    connection at every callback (consecutive equal views are merged)."""
+    class H(ProgressHandler):
+        def _tick(self, name):
+            counter[0] += 1
+            v = view()
+            if views and views[-1]['v'] == v:
+                views[-1]['to'] = counter[0]
+            else:
+                views.append({'from': counter[0], 'to': counter[0], 'v': v})
+
+        def update(self, n=1, force=False):
+            super().update(n, force)
+            self._tick('update')
+
+        def set(self, **kw):
+            self.kwargs.update(**kw)
+            self._tick('set')
+
+        def flash(self, message):
+            self._tick('flash')
+
+        def close(self):
+            self._tick('close')
+    return H
+
+
+def dying_handler(k: int, counter: list):
+    """A ProgressHandler subclass whose k-th callback kills the process outright
+    (no exception handler, no rollback, no close: what a power cut leaves)."""
+    import os
+
+    class H(ProgressHandler):
+        def _tick(self, name):
+            counter[0] += 1
+            if counter[0] == k:
+                os._exit(77)
+
+        def update(self, n=1, force=False):
+            super().update(n, force)
+            self._tick('update')
+
+        def set(self, **kw):
+            self.kwargs.update(**kw)
+            self._tick('set')
+
+        def flash(self, message):
+            self._tick('flash')
+    return H
 
 
 # ---------------------------------------------------------------------------
